@@ -255,3 +255,30 @@ def bound_args(repo, fi, call):
     if b is not None and is_method:
         b.pop("self", None)
     return b
+
+
+def path_conditions(func_node, target):
+    """[(test, truth)] of the If statements that enclose `target` in func_node, outermost first; `elif` chains contribute the negation of
+    every earlier test (an `elif` is an If inside an orelse)."""
+    out = []
+
+    def visit(stmts, conds):
+        for st in stmts:
+            if any(n is target for n in ast.walk(st)):
+                if isinstance(st, ast.If):
+                    if any(n is target for b in st.body for n in ast.walk(b)):
+                        return visit(st.body, conds + [(st.test, True)])
+                    if any(n is target for b in st.orelse for n in ast.walk(b)):
+                        return visit(st.orelse, conds + [(st.test, False)])
+                    return conds            # inside the test itself
+                for fld in ("body", "orelse", "finalbody"):
+                    blk = getattr(st, fld, None)
+                    if isinstance(blk, list) and any(n is target for b in blk for n in ast.walk(b)):
+                        return visit(blk, conds)
+                if isinstance(st, ast.Try):
+                    for h in st.handlers:
+                        if any(n is target for b in h.body for n in ast.walk(b)):
+                            return visit(h.body, conds)
+                return conds
+        return conds
+    return visit(func_node.body, [])
